@@ -98,14 +98,30 @@ def f_conversions(system):
             R.assume(c[3] > 0)
             R.assume(spec.tau2(R.lib, c) > 0)
         goals = []
-        for syn, gen in CONV[d].items():
-            a, b = getattr(v, syn)(), getattr(v, gen)()
+        from . import c04
+
+        pairs = []
+        for dd in range(d, 5):
+            for syn, gen in CONV[dd].items():
+                tsys = c04.TARGETS[syn][0]
+                kws, kwg = {}, {}
+                for pos in range(d, dd):
+                    nm = tsys[pos - 1]
+                    val = R.real(f"kw_{syn}_{nm}")
+                    kws[c04.KW_M[nm]] = val
+                    kwg[c04.KW[nm]] = val
+                pairs.append((syn, gen, kws, kwg))
+        for syn, gen, kws, kwg in pairs:
+            a, b = getattr(v, syn)(**kws), getattr(v, gen)(**kwg)
             sa, ca = lanes.stored(a)
             sb, cb = lanes.stored(b)
             goals.append((f"{syn}:system", G.true(sa == sb and type(a) is type(b), f"{sa} vs {sb}")))
             names = list(lanes.AZ_NAMES[sa[0]]) + list(sa[1:])
             for nm, x, y in zip(names, ca, cb):
                 goals.append((f"{syn}.{nm}", _eq_or_same(x, y, angle=nm in ("phi", "theta"))))
+            for kw, val in kws.items():
+                # the keyword value passed under the momentum spelling is stored as that very object
+                goals.append((f"{syn}({kw}=):stored", G.true(any(c is val for c in ca), kw)))
         return goals
 
     return fn
